@@ -42,14 +42,14 @@ def Chain.siteHalfOps (dt : ℚ) : List (Op K) :=
     `E j (dt/2)` — post-control of step `k`, first half, MPO `k`, second half, and the
     pre-control of step `k+1` -/
 def Chain.siteStepOps (dt : ℚ) (j k : ℕ) : List (Op K) :=
-  ((ch.post j k).map (Op.site (physSlot j) (ch.L j) (ch.L j))).toList
+  ((ch.post j k).map (fun M => Op.site (physSlot j) (ch.L j) (ch.L j) (siteGateTable M))).toList
     ++ [Op.site (physSlot j) (ch.L j) (ch.L j) (E j (dt / 2))]
     ++ (if ch.hasPT j k then
           [Op.pair (ptSlot j) (physSlot j) (ch.D j k) (ch.L j) (ch.D j (k+1)) (ch.L j)
             (fun b' o b i => ch.T j k b b' i o)]
         else [])
     ++ [Op.site (physSlot j) (ch.L j) (ch.L j) (E j (dt / 2))]
-    ++ ((ch.pre j (k + 1)).map (Op.site (physSlot j) (ch.L j) (ch.L j))).toList
+    ++ ((ch.pre j (k + 1)).map (fun M => Op.site (physSlot j) (ch.L j) (ch.L j) (siteGateTable M))).toList
 
 theorem runOps_siteHalfOps (dt : ℚ) (ψ : Config → K) :
     runOps (ch.siteHalfOps E dt) ψ
@@ -118,7 +118,7 @@ theorem localStepOps_filter (dt : ℚ) (k j : ℕ) (hj : j < ch.n) :
   have hpt : ∀ i : ℕ, ptSlot i / 2 = i := fun i => SlotOf.div (Or.inr rfl)
   have hc : ∀ (ctl : ℕ → ℕ → Option (ℕ → ℕ → K)) (k' : ℕ),
       (ch.ctrlOps ctl k').filter (fun o => decide (o.siteOf = j))
-        = ((ctl j k').map (Op.site (physSlot j) (ch.L j) (ch.L j))).toList := by
+        = ((ctl j k').map (fun M => Op.site (physSlot j) (ch.L j) (ch.L j) (siteGateTable M))).toList := by
     intro ctl k'
     unfold Chain.ctrlOps
     rw [filter_site_filterMap, if_pos hj]
